@@ -47,8 +47,21 @@ Glue(t) == Cls(t) \in {"ws", "comma", "(", ")", "func"} \/ (Cls(t) = "delim" /\ 
 NotCssWords == {"null", "NaN", "Infinity", "-Infinity", "true", "false"}     \* SassScript words that re-read differently
 CalcFns == {"calc", "min", "max", "clamp", "round", "mod", "rem", "sin", "cos", "tan", "abs", "sign", "log", "exp", "pow", "sqrt", "hypot"}
 HasInterp(s) == \E i \in 1..(Len(s) - 1) : SubSeq(s, i, i + 1) = "#{"
+\* Sass global functions that CSS does not also define: their name in the output means an unevaluated call or the inspect() text
+\* of a function value, which plain CSS rejects and SCSS would evaluate
+SassOnlyFns == {"get-function", "call", "unitless", "unit", "comparable", "lighten", "darken", "desaturate", "adjust-hue", "mix", "complement",
+                "red", "green", "blue", "hue", "saturation", "lightness", "opacify", "transparentize", "fade-in", "fade-out", "percentage",
+                "random", "length", "nth", "set-nth", "join", "append", "zip", "index", "list-separator", "is-bracketed", "map-get",
+                "map-merge", "map-remove", "map-keys", "map-values", "map-has-key", "keywords", "feature-exists", "variable-exists",
+                "global-variable-exists", "function-exists", "mixin-exists", "content-exists", "inspect", "type-of", "if", "unique-id",
+                "quote", "unquote", "str-length", "str-insert", "str-index", "str-slice", "to-upper-case", "to-lower-case",
+                "selector-nest", "selector-append", "selector-extend", "selector-replace", "selector-unify", "is-superselector",
+                "simple-selectors", "selector-parse", "adjust-color", "scale-color", "change-color", "ie-hex-str"}
+NonWs(toks) == SelectSeq(toks, LAMBDA t : Cls(t) # "ws")
 RepresentableValue(toks) ==
   /\ Len(SelectSeq(toks, LAMBDA t : Cls(t) # "ws")) > 0
+  /\ \A i \in 1..Len(toks) : Cls(toks[i]) = "func" => Txt(toks[i]) \notin SassOnlyFns
+  /\ LET nw == NonWs(toks) IN ~(Cls(nw[1]) = "delim" /\ Txt(nw[1]) = "/") /\ ~(Cls(nw[Len(nw)]) = "delim" /\ Txt(nw[Len(nw)]) = "/")   \* a dangling slash
   /\ \A i \in 1..Len(toks) : Cls(toks[i]) \in ValueCls \/ (Cls(toks[i]) = "delim" /\ Txt(toks[i]) \in {"/", "!"})
   /\ \A i \in 1..Len(toks) : ~(Cls(toks[i]) = "ident" /\ Txt(toks[i]) \in NotCssWords)
   /\ \A i \in 1..Len(toks) : Cls(toks[i]) = "func" => Txt(toks[i]) \notin CalcFns            \* calculations: C16
